@@ -48,12 +48,17 @@ func c15(r *Run) {
 		owners["(*defaultPoll).Close"] = "kqueue descriptor"
 	}
 	found := map[string]int{}
+	sites := map[string]int{}
 	for _, f := range w.Funcs {
 		for _, ins := range findIns(f, isSysCall("Close")) {
 			name := w.FnName(f)
-			found[name]++
-			_, ok := owners[name]
-			r.ob(fmt.Sprintf("C15.R1:close-site:%s#%d", name, found[name]), "close(2) is issued only by the functions that own a descriptor (frozen census; a new raw close must be justified)", f, ins, ok, owners[name], false)
+			sites[name]++
+			// a private helper that is only ever called from one owner is part of that owner
+			owner, ok := w.OwnerOf(f, func(n string) bool { _, is := owners[n]; return is })
+			if ok {
+				found[owner]++
+			}
+			r.ob(fmt.Sprintf("C15.R1:close-site:%s#%d", name, sites[name]), "close(2) is issued only by the functions that own a descriptor, or by a private helper called from one owner only (frozen census; a new raw close must be justified)", f, ins, ok, owners[owner], false)
 		}
 	}
 	var names []string
@@ -272,6 +277,12 @@ func c15(r *Run) {
 	}
 	// descriptors of failed / abandoned dials (shared with C14.R1, C14.R4)
 	r.borrow([]string{"C14.R1:", "C14.R4:established-is-returned"}, "C14.R", "C15.R3.dial", func() { c14(r) })
+	// the poller's exit: the close message is recognised and both descriptors are closed (C11.R6); the server handle, which
+	// owns the listener's duplicate, is dropped only by the Shutdown that closes it (C13.R6)
+	if linux {
+		r.borrow([]string{"C11.R6:close-closes-eventfd", "C11.R6:close-closes-epollfd", "C11.R6:wait-returns-on-close"}, "C11.R6", "C15.R6", func() { c11(r) })
+	}
+	r.borrow([]string{"C13.R6:server-handle"}, "C13.R6", "C15.R7", func() { c13(r) })
 
 	// a conversion that fails has adopted nothing: the caller's net.Listener is still the caller's and stays open
 	{
